@@ -602,6 +602,51 @@ def tensor_transforms(repo):
     return "".join(defs) + "\n" + "".join(lems), what
 
 
+def operator_transforms(repo):
+    """transform() of the two-index classes: every assignment to a private data attribute must be  S1 . X . SS  of the same X
+    (state vectors:  S1 . v).  Returns Gallina definitions with (definitional) equivalence lemmas."""
+    specs = [("operator", "/quantarhei/qm/hilbertspace/operators.py", "Operator.transform"),
+             ("hamiltonian", "/quantarhei/qm/hilbertspace/hamiltonian.py", "Hamiltonian.transform"),
+             ("dipole_moment", "/quantarhei/qm/hilbertspace/dmoment.py", "TransitionDipoleMoment.transform"),
+             ("dm_evolution", "/quantarhei/qm/propagators/dmevolution.py", "DensityMatrixEvolution.transform"),
+             ("sv_evolution", "/quantarhei/qm/propagators/statevectorevolution.py", "StateVectorEvolution.transform"),
+             ("redfield_operators", "/quantarhei/qm/liouvillespace/redfieldtensor.py", "RedfieldRelaxationTensor.transform"),
+             ("tdredfield_operators", "/quantarhei/qm/liouvillespace/tdredfieldtensor.py", "TDRedfieldRelaxationTensor.transform")]
+    defs, what = [], []
+    for tag, path, qual in specs:
+        fn = _src_of(repo + path, qual)
+        found = 0
+        for node in ast.walk(fn):
+            if not isinstance(node, ast.Assign) or len(node.targets) != 1:
+                continue
+            tgt = ast.unparse(node.targets[0])
+            if not (tgt.startswith("self._") or tgt == "self.JR"):
+                continue
+            if tgt.startswith("self._data[") and tag in ("redfield_operators", "tdredfield_operators"):
+                continue                                   # four-index passes: translated by tensor_transforms
+            val = node.value
+            ok_mat = (isinstance(val, ast.Call) and ast.unparse(val.func) == "numpy.dot" and len(val.args) == 2
+                      and ast.unparse(val.args[0]) == "S1" and isinstance(val.args[1], ast.Call)
+                      and ast.unparse(val.args[1].func) == "numpy.dot" and len(val.args[1].args) == 2
+                      and ast.unparse(val.args[1].args[0]) == tgt and ast.unparse(val.args[1].args[1]) == "SS")
+            ok_vec = (tag == "sv_evolution" and isinstance(val, ast.Call) and ast.unparse(val.func) == "numpy.dot" and len(val.args) == 2
+                      and ast.unparse(val.args[0]) == "S1" and ast.unparse(val.args[1]) == tgt)
+            if not (ok_mat or ok_vec):
+                raise Untranslatable("%s: assignment %s = %s is not S1 . X . SS of the same X" % (qual, tgt, ast.unparse(val)[:80]))
+            nm = "gen_%s_%d" % (tag, found)
+            if ok_mat:
+                defs.append("  Definition %s (n : nat) (S1 S X : @mat R) : @mat R := mmul n S1 (mmul n X S).   (* %s *)\n"
+                            "  Lemma %s_is_model n S1 S X : %s n S1 S X = sim n S1 S X.  Proof. reflexivity. Qed.\n" % (nm, tgt, nm, nm))
+            else:
+                defs.append("  Definition %s (n : nat) (S1 : @mat R) (v : @vec R) : @vec R := mv n S1 v.   (* %s *)\n"
+                            "  Lemma %s_is_model n S1 v : %s n S1 v = mv n S1 v.  Proof. reflexivity. Qed.\n" % (nm, tgt, nm, nm))
+            found += 1
+        if found == 0:
+            raise Untranslatable("%s: no transformation of a data attribute found" % qual)
+        what.append("%s (%d assignments)" % (qual, found))
+    return "".join(defs), what
+
+
 C04_FILE = """(* GENERATED on every run by harness/translate.py from the transform() methods of SuperOperator, RelaxationTensor and
    TDRedfieldRelaxationTensor: every loop nest of the two-pass basis change, for the 4-index and the time-dependent data *)
 From Coq Require Import ZArith List Bool Arith.
@@ -630,8 +675,9 @@ def static_tie(cm, chk, pid, repo):
                                   "relaxationtensor.py:RelaxationTensor.secularize (zeroing condition)"]
         elif pid == "C04":
             body, what = tensor_transforms(repo)
-            text = C04_FILE % body
-            info["translated"] = [w + " (loop nests of the two passes)" for w in what]
+            body2, what2 = operator_transforms(repo)
+            text = C04_FILE % (body + "\n" + body2)
+            info["translated"] = [w + " (loop nests of the two passes)" for w in what] + what2
         elif pid in ("C02", "C07"):
             text = C02_FILE % propagator_kernels(repo)
             info["translated"] = ["rdmpropagator.py:_COM", "rdmpropagator.py:_TTI", "rdmpropagator.py:_OTI"]
